@@ -1,5 +1,5 @@
 (** C19 — Replication progress never regresses and equals its maximum at rest. *)
-From Orbit Require Import Spec.Statements Proofs.StatusProofs.
+From Orbit Require Import Spec.Statements Proofs.StatusProofs Proofs.StatusConcProofs.
 
 (** With the monotone maximum (the repaired tree) neither value ever decreases along any
     sequence of status events, from any state with progress <= max, and progress <= max
@@ -49,3 +49,90 @@ Theorem C19_after_load :
     run_status true sp (map (fun t => EvProgress t 0) times) status0 = mkS T T.
 Proof. exact status_after_load. Qed.
 Print Assumptions C19_after_load.
+
+(** * Schedules: recalculations issued concurrently by the event loop, local writers and Load *)
+
+(** With the status mutex (held from the reads to the Set of one primitive recalculation) and
+    the monotone maximum: for every set of threads, every schedule of reads, writes and log
+    growth (labels that are not enabled are skipped) and every pair of consecutive states,
+    neither progress nor the maximum (nor the log length) decreases, and
+    progress <= max(maximum, log length) is kept. *)
+Theorem C19_monotone_concurrent :
+  forall (ps : list prog) (sched : list label) (len0 : Z) (s : status),
+    s_progress s <= Z.max (s_max s) len0 ->
+    forall i a b,
+      nth_error (ctrace true true sched (cinit len0 s ps)) i = Some a ->
+      nth_error (ctrace true true sched (cinit len0 s ps)) (S i) = Some b ->
+      cstatus_le a b /\ cstatus_inv b.
+Proof. exact statusconc_monotone. Qed.
+Print Assumptions C19_monotone_concurrent.
+
+(** ... and both values stay below any bound B on the announced times and the log length
+    (with a complete log: the number of entries). *)
+Theorem C19_bounded_concurrent :
+  forall (ps : list prog) (sched : list label) (len0 : Z) (s : status) (B : Z),
+    s_progress s <= Z.max (s_max s) len0 -> s_max s <= B ->
+    (forall p a, In p ps -> In a (prog_args p) -> a <= B) ->
+    let c := crun true true sched (cinit len0 s ps) in
+    c_len c <= B ->
+    s_max (c_st c) <= B /\ s_progress (c_st c) <= B /\ cstatus_inv c.
+Proof. exact statusconc_bounded. Qed.
+Print Assumptions C19_bounded_concurrent.
+
+(** With the mutex every reachable status is the result of the SEQUENTIAL primitives of
+    Model/Status.v run one after the other (so what is proved about those carries over). *)
+Theorem C19_sequential_concurrent :
+  forall (mm : bool) (ps : list prog) (sched : list label) (len0 : Z) (s : status),
+    let c := crun true mm sched (cinit len0 s ps) in
+    exists prims : list (phase * Z),
+      c_st c = fold_left (prim_step mm) prims s /\
+      (forall x, In x prims -> len0 <= snd x <= c_len c).
+Proof. exact statusconc_sequential. Qed.
+Print Assumptions C19_sequential_concurrent.
+
+(** At rest under every schedule: once the log has reached its final length L (complete log:
+    announced times and the initial maximum do not exceed L), if some thread still had its
+    maximum recalculation and some thread (possibly the same one, a
+    recalculateReplicationStatus call) its progress recalculation to read, then when all
+    threads have finished progress = max = L. *)
+Theorem C19_at_rest_concurrent :
+  forall (ps : list prog) (sched1 sched2 : list label) (len0 : Z) (s : status) i j ti tj a,
+    s_progress s <= Z.max (s_max s) len0 ->
+    let c1 := crun true true sched1 (cinit len0 s ps) in
+    let c2 := crun true true sched2 c1 in
+    let L := c_len c1 in
+    c_len c2 = L ->
+    s_max s <= L ->
+    (forall p x, In p ps -> In x (prog_args p) -> x <= L) ->
+    nth_error (c_thr c1) i = Some ti -> In (PMax a) (t_todo ti) -> t_loc ti = None ->
+    nth_error (c_thr c1) j = Some tj -> In PProg (t_todo tj) -> t_loc tj = None ->
+    threads_done c2 ->
+    c_st c2 = mkS L L.
+Proof. exact statusconc_at_rest. Qed.
+Print Assumptions C19_at_rest_concurrent.
+
+(** Without the mutex (base_store.go before the repair: only the individual Get/Set are
+    locked) the maximum decreases: a writer reads max = 5, an announcement of clock 9 is
+    stored, the writer stores 6.  Regression witness. *)
+Theorem C19_refuted_nonatomic_recalc :
+  exists (ps : list prog) (sched : list label) (len0 : Z) (s : status),
+    s_progress s <= s_max s /\
+    exists i a b,
+      nth_error (ctrace false true sched (cinit len0 s ps)) i = Some a /\
+      nth_error (ctrace false true sched (cinit len0 s ps)) (S i) = Some b /\
+      s_max (c_st b) < s_max (c_st a).
+Proof. exact statusconc_refuted_nonatomic. Qed.
+Print Assumptions C19_refuted_nonatomic_recalc.
+
+(** ... and progress decreases, leaving progress < max = log length at rest. *)
+Theorem C19_refuted_nonatomic_progress :
+  exists (ps : list prog) (sched : list label) (len0 : Z) (s : status),
+    s_progress s <= s_max s /\
+    (exists i a b,
+      nth_error (ctrace false true sched (cinit len0 s ps)) i = Some a /\
+      nth_error (ctrace false true sched (cinit len0 s ps)) (S i) = Some b /\
+      s_progress (c_st b) < s_progress (c_st a)) /\
+    let c := crun false true sched (cinit len0 s ps) in
+    threads_done c /\ s_progress (c_st c) < s_max (c_st c) /\ s_max (c_st c) = c_len c.
+Proof. exact statusconc_refuted_nonatomic_progress. Qed.
+Print Assumptions C19_refuted_nonatomic_progress.
